@@ -1,17 +1,328 @@
 (* HashKey_proofs.v -- lemmas about HashKey.v (C09, used by C01/C02). *)
 From Grog Require Import Str Label HashKey.
 
+(* ------------------------------------------------------------------ the byte-wise order *)
+Lemma byte_of_inj a b : byte_of a = byte_of b -> a = b.
+Proof.
+  unfold byte_of; intro E. apply (f_equal ascii_of_nat) in E.
+  rewrite !ascii_nat_embedding in E. exact E.
+Qed.
+
+Lemma str_ltb_asym x : forall y, str_ltb x y = true -> str_ltb y x = false.
+Proof.
+  induction x as [|a x IH]; intros [|b y]; cbn [str_ltb]; try congruence.
+  destruct (Nat.ltb_spec (byte_of a) (byte_of b)), (Nat.ltb_spec (byte_of b) (byte_of a));
+    try congruence; try lia; auto.
+Qed.
+
+Lemma str_ltb_antisym x : forall y, str_ltb x y = false -> str_ltb y x = false -> x = y.
+Proof.
+  induction x as [|a x IH]; intros [|b y]; cbn [str_ltb]; try congruence.
+  destruct (Nat.ltb_spec (byte_of a) (byte_of b)), (Nat.ltb_spec (byte_of b) (byte_of a));
+    try congruence; try lia.
+  intros H1 H2. assert (a = b) by (apply byte_of_inj; lia). subst b.
+  f_equal. apply IH; assumption.
+Qed.
+
+Lemma str_ltb_negtrans x :
+  forall y z, str_ltb y x = false -> str_ltb z y = false -> str_ltb z x = false.
+Proof.
+  induction x as [|a x IH]; intros [|b y] [|c z]; cbn [str_ltb]; try congruence.
+  destruct (Nat.ltb_spec (byte_of b) (byte_of a)), (Nat.ltb_spec (byte_of a) (byte_of b)),
+           (Nat.ltb_spec (byte_of c) (byte_of b)), (Nat.ltb_spec (byte_of b) (byte_of c)),
+           (Nat.ltb_spec (byte_of c) (byte_of a)), (Nat.ltb_spec (byte_of a) (byte_of c));
+    try congruence; try lia.
+  apply IH.
+Qed.
+
+Lemma str_leb_total x y : str_leb x y = false -> str_leb y x = true.
+Proof.
+  unfold str_leb. rewrite negb_false_iff, negb_true_iff. apply str_ltb_asym.
+Qed.
+
+Lemma str_leb_antisym x y : str_leb x y = true -> str_leb y x = true -> x = y.
+Proof.
+  unfold str_leb. rewrite !negb_true_iff. intros H1 H2. apply str_ltb_antisym; assumption.
+Qed.
+
+Lemma str_leb_trans x y z : str_leb x y = true -> str_leb y z = true -> str_leb x z = true.
+Proof.
+  unfold str_leb. rewrite !negb_true_iff. apply str_ltb_negtrans.
+Qed.
+
 (* ------------------------------------------------------------------ sorting is canonical *)
+Fixpoint sorted (l : list str) : Prop :=
+  match l with
+  | [] => True
+  | x :: l' => (forall y, In y l' -> str_leb x y = true) /\ sorted l'
+  end.
+
+Lemma insert_sorted_perm x l : Permutation (insert_sorted x l) (x :: l).
+Proof.
+  induction l as [|y l IH]; cbn [insert_sorted].
+  - apply Permutation_refl.
+  - destruct (str_leb x y); [apply Permutation_refl|].
+    eapply perm_trans; [apply perm_skip, IH | apply perm_swap].
+Qed.
+
+Lemma sort_strs_cons x l : sort_strs (x :: l) = insert_sorted x (sort_strs l).
+Proof. reflexivity. Qed.
+
 Lemma sort_strs_perm l : Permutation (sort_strs l) l.
-Proof. Admitted.
+Proof.
+  induction l as [|x l IH].
+  - apply Permutation_refl.
+  - rewrite sort_strs_cons.
+    eapply perm_trans; [apply insert_sorted_perm | apply perm_skip, IH].
+Qed.
+
+Lemma insert_sorted_sorted x l : sorted l -> sorted (insert_sorted x l).
+Proof.
+  induction l as [|y l IH]; cbn [insert_sorted]; intro S.
+  - split; [intros ? [] | exact I].
+  - destruct S as [S1 S2]. destruct (str_leb x y) eqn:E.
+    + split; [|split; assumption].
+      intros z [<-|Hz]; [exact E|].
+      apply (str_leb_trans x y z); [exact E | apply S1; exact Hz].
+    + split; [|apply IH; exact S2].
+      intros z Hz. apply (Permutation_in _ (insert_sorted_perm x l)) in Hz.
+      destruct Hz as [<-|Hz]; [apply str_leb_total; exact E | apply S1; exact Hz].
+Qed.
+
+Lemma sort_strs_sorted l : sorted (sort_strs l).
+Proof.
+  induction l as [|x l IH]; [exact I|].
+  rewrite sort_strs_cons. apply insert_sorted_sorted, IH.
+Qed.
+
+Lemma sorted_perm_eq l : forall l', sorted l -> sorted l' -> Permutation l l' -> l = l'.
+Proof.
+  induction l as [|x l IH]; intros [|y l'] S S' P.
+  - reflexivity.
+  - apply Permutation_nil in P; discriminate.
+  - apply Permutation_sym, Permutation_nil in P; discriminate.
+  - destruct S as [S1 S2], S' as [S1' S2'].
+    assert (E : x = y).
+    { assert (Hx : In x (y :: l')) by (apply (Permutation_in _ P); left; reflexivity).
+      assert (Hy : In y (x :: l))
+        by (apply (Permutation_in _ (Permutation_sym P)); left; reflexivity).
+      destruct Hx as [Hx|Hx]; [symmetry; exact Hx|].
+      destruct Hy as [Hy|Hy]; [exact Hy|].
+      apply str_leb_antisym; [apply S1; exact Hy | apply S1'; exact Hx]. }
+    subst y. f_equal. apply IH; [exact S2 | exact S2' |].
+    eapply Permutation_cons_inv; exact P.
+Qed.
 
 Lemma sort_strs_canonical l l' : Permutation l l' -> sort_strs l = sort_strs l'.
-Proof. Admitted.
+Proof.
+  intro P. apply sorted_perm_eq; try apply sort_strs_sorted.
+  eapply perm_trans; [apply sort_strs_perm|].
+  eapply perm_trans; [exact P|]. apply Permutation_sym, sort_strs_perm.
+Qed.
+
+Lemma sort_strs_eq_perm l l' : sort_strs l = sort_strs l' -> Permutation l l'.
+Proof.
+  intro E. eapply perm_trans; [apply Permutation_sym, sort_strs_perm|].
+  rewrite E. apply sort_strs_perm.
+Qed.
 
 (* ------------------------------------------------------------------ order independence *)
+Lemma no_inputs_perm a b : Permutation (ts_ins a) (ts_ins b) -> no_inputs a = no_inputs b.
+Proof.
+  unfold no_inputs. intro P. destruct (ts_ins a), (ts_ins b); try reflexivity.
+  - apply Permutation_nil in P; discriminate.
+  - apply Permutation_sym, Permutation_nil in P; discriminate.
+Qed.
+
 Theorem key_order_independent (H : str -> str) fa a fb b :
   state_equiv fa a fb b -> change_key H fa a = change_key H fb b.
-Proof. Admitted.
+Proof.
+  intros (E1 & E2 & P3 & P4 & P5 & P6 & E7 & F).
+  assert (Ed : encode_def a = encode_def b).
+  { unfold encode_def, comps.
+    rewrite E1, E2, E7, (sort_strs_canonical _ _ P3), (sort_strs_canonical _ _ P4),
+      (sort_strs_canonical _ _ P5), (sort_strs_canonical _ _ (Permutation_map kv P6)).
+    reflexivity. }
+  assert (Ef : encode_files fa a = encode_files fb b).
+  { unfold encode_files, file_parts. rewrite <- (sort_strs_canonical _ _ P3). f_equal.
+    apply map_ext_in. intros p Hp. unfold file_bytes. rewrite (F p); [reflexivity|].
+    apply (Permutation_in _ (sort_strs_perm _)); exact Hp. }
+  unfold change_key. rewrite (no_inputs_perm _ _ P3), Ed, Ef. reflexivity.
+Qed.
+
+(* ------------------------------------------------------------------ decoding helpers *)
+Lemma first_split_eq c (a b a' b' : str) :
+  ~ In c a -> ~ In c a' -> a ++ c :: b = a' ++ c :: b' -> a = a' /\ b = b'.
+Proof.
+  intros Ha Ha' E. apply (f_equal (split_first c)) in E.
+  rewrite (split_first_app _ _ _ Ha), (split_first_app _ _ _ Ha') in E.
+  injection E; auto.
+Qed.
+
+Lemma label_parts_inj l l' :
+  ~ In ch_colon (lpkg l) -> ~ In ch_colon (lpkg l') ->
+  lpkg l ++ ch_colon :: lname l = lpkg l' ++ ch_colon :: lname l' -> l = l'.
+Proof.
+  destruct l as [p n], l' as [p' n']; cbn [lpkg lname].
+  intros Hp Hp' E. apply first_split_eq in E; auto.
+  destruct E; congruence.
+Qed.
+
+Lemma print_label_inj l l' :
+  ~ In ch_colon (lpkg l) -> ~ In ch_colon (lpkg l') -> print_label l = print_label l' -> l = l'.
+Proof.
+  unfold print_label. intros Hp Hp' E. apply app_inv_head in E.
+  apply label_parts_inj; assumption.
+Qed.
+
+Lemma elem_ok_spec s : elem_ok s = true -> s <> [] /\ ~ In ch_comma s.
+Proof.
+  unfold elem_ok. rewrite andb_true_iff, !negb_true_iff. intros [H1 H2]. split.
+  - destruct s; [discriminate H1 | intro; discriminate].
+  - apply mem_ch_false; exact H2.
+Qed.
+
+Lemma join_single sep x : join sep [x] = x.
+Proof. reflexivity. Qed.
+
+Lemma join_cons2 x y l : join comma (x :: y :: l) = x ++ ch_comma :: join comma (y :: l).
+Proof. reflexivity. Qed.
+
+Lemma join_nil_inv l : (forall x, In x l -> elem_ok x = true) -> join comma l = [] -> l = [].
+Proof.
+  destruct l as [|x [|y l]]; intros Hl E; [reflexivity | |].
+  - rewrite join_single in E. destruct (elem_ok_spec x) as [N _]; [apply Hl; left; reflexivity|].
+    contradiction.
+  - rewrite join_cons2 in E. apply app_eq_nil in E as [_ E]. discriminate.
+Qed.
+
+Lemma join_comma_inj l :
+  forall l', (forall x, In x l -> elem_ok x = true) -> (forall x, In x l' -> elem_ok x = true) ->
+             join comma l = join comma l' -> l = l'.
+Proof.
+  induction l as [|x l IH]; intros l' Hl Hl' E.
+  - symmetry in E. apply join_nil_inv in E; [congruence | exact Hl'].
+  - destruct l' as [|x' l'].
+    + apply join_nil_inv in E; [exact E | exact Hl].
+    + assert (Ox : ~ In ch_comma x) by (apply elem_ok_spec, Hl; left; reflexivity).
+      assert (Ox' : ~ In ch_comma x') by (apply elem_ok_spec, Hl'; left; reflexivity).
+      destruct l as [|y l], l' as [|y' l'].
+      * rewrite !join_single in E. congruence.
+      * rewrite join_cons2, join_single in E. exfalso. apply Ox. rewrite E.
+        apply in_or_app; right; left; reflexivity.
+      * rewrite join_cons2, join_single in E. exfalso. apply Ox'. rewrite <- E.
+        apply in_or_app; right; left; reflexivity.
+      * rewrite !join_cons2 in E. apply first_split_eq in E; [|exact Ox|exact Ox'].
+        destruct E as [-> E]. f_equal.
+        apply IH; [intros; apply Hl; right; assumption
+                  | intros; apply Hl'; right; assumption | exact E].
+Qed.
+
+Lemma join_sort_inj l l' :
+  forallb elem_ok l = true -> forallb elem_ok l' = true ->
+  join comma (sort_strs l) = join comma (sort_strs l') -> Permutation l l'.
+Proof.
+  intros Hl Hl' E. apply sort_strs_eq_perm. apply join_comma_inj; [| |exact E].
+  - intros x Hx. apply (proj1 (forallb_forall _ _) Hl).
+    apply (Permutation_in _ (sort_strs_perm l)); exact Hx.
+  - intros x Hx. apply (proj1 (forallb_forall _ _) Hl').
+    apply (Permutation_in _ (sort_strs_perm l')); exact Hx.
+Qed.
+
+Lemma fp_ok_spec e :
+  fp_ok e = true -> ~ In ch_comma (fst e) /\ ~ In ch_eq (fst e) /\ ~ In ch_comma (snd e).
+Proof.
+  unfold fp_ok. rewrite !andb_true_iff, !negb_true_iff. intros [[H1 H2] H3].
+  repeat split; apply mem_ch_false; assumption.
+Qed.
+
+Lemma kv_elem_ok e : fp_ok e = true -> elem_ok (kv e) = true.
+Proof.
+  intro Hk. destruct (fp_ok_spec e Hk) as (K1 & K2 & K3).
+  unfold elem_ok, kv. apply andb_true_iff; split; apply negb_true_iff.
+  - destruct (fst e); reflexivity.
+  - apply mem_ch_false. intro Hin. apply in_app_or in Hin as [Hin|[Hin|Hin]].
+    + contradiction.
+    + discriminate Hin.
+    + contradiction.
+Qed.
+
+Lemma kv_inj e e' : fp_ok e = true -> fp_ok e' = true -> kv e = kv e' -> e = e'.
+Proof.
+  intros Hk Hk' E. destruct (fp_ok_spec e Hk) as (_ & K2 & _).
+  destruct (fp_ok_spec e' Hk') as (_ & K2' & _).
+  unfold kv in E. apply first_split_eq in E; [|exact K2|exact K2'].
+  destruct e, e'; cbn [fst snd] in E. destruct E; congruence.
+Qed.
+
+Lemma map_kv_inj l :
+  forall l', forallb fp_ok l = true -> forallb fp_ok l' = true -> map kv l = map kv l' -> l = l'.
+Proof.
+  induction l as [|e l IH]; intros [|e' l']; cbn [map forallb]; try discriminate;
+    [reflexivity|].
+  rewrite !andb_true_iff. intros [H1 H2] [H1' H2'] E. injection E as E1 E2.
+  f_equal; [apply kv_inj; assumption | apply IH; assumption].
+Qed.
+
+Lemma forallb_perm {A} (f : A -> bool) l l' :
+  Permutation l l' -> forallb f l = true -> forallb f l' = true.
+Proof.
+  intros P Hl. apply forallb_forall. intros x Hx.
+  apply (proj1 (forallb_forall _ _) Hl). apply (Permutation_in _ (Permutation_sym P)); exact Hx.
+Qed.
+
+Lemma perm_map_kv_inv l l' :
+  forallb fp_ok l = true -> forallb fp_ok l' = true ->
+  Permutation (map kv l) (map kv l') -> Permutation l l'.
+Proof.
+  intros Hl Hl' P. apply Permutation_map_inv in P as (l3 & E & P3).
+  apply map_kv_inj in E; [subst l3; apply Permutation_sym; exact P3 | exact Hl |].
+  eapply forallb_perm; [exact P3 | exact Hl'].
+Qed.
+
+Lemma forallb_map_kv l : forallb fp_ok l = true -> forallb elem_ok (map kv l) = true.
+Proof.
+  induction l as [|e l IH]; cbn [map forallb]; [reflexivity|].
+  rewrite !andb_true_iff. intros [H1 H2]. split; [apply kv_elem_ok; exact H1 | apply IH; exact H2].
+Qed.
+
+Lemma plat_str_inj p q :
+  match p with Some [] => false | _ => true end = true ->
+  match q with Some [] => false | _ => true end = true ->
+  plat_str p = plat_str q -> p = q.
+Proof.
+  destruct p as [[|c s]|], q as [[|d t]|]; cbn [plat_str]; congruence.
+Qed.
+
+Lemma nth_error_ext {A} (l : list A) : forall l', (forall i, nth_error l i = nth_error l' i) -> l = l'.
+Proof.
+  induction l as [|x l IH]; intros [|x' l'] Hn.
+  - reflexivity.
+  - specialize (Hn 0); discriminate.
+  - specialize (Hn 0); discriminate.
+  - pose proof (Hn 0) as H0. cbn [nth_error] in H0. injection H0 as ->.
+    f_equal. apply IH. intro i. exact (Hn (S i)).
+Qed.
+
+(* contents of the files along a duplicate-free path list, equal except possibly at [p]:
+   equal concatenations force equality at [p] too *)
+Lemma concat_map_one_diff (f g : str -> str) (p : str) L :
+  NoDup L -> (forall q, In q L -> q <> p -> f q = g q) ->
+  concat (map f L) = concat (map g L) -> forall q, In q L -> f q = g q.
+Proof.
+  induction L as [|x L IH]; intros ND Hd E q Hq; [destruct Hq|].
+  inversion ND as [|? ? Hx ND']; subst.
+  cbn [map concat] in E.
+  destruct (list_eq_dec ascii_dec x p) as [->|Nx].
+  - assert (T : forall r, In r L -> f r = g r).
+    { intros r Hr. apply Hd; [right; exact Hr|]. intros ->. contradiction. }
+    rewrite (map_ext_in _ _ _ T) in E. apply app_inv_tail in E.
+    destruct Hq as [<-|Hq]; [exact E | apply T; exact Hq].
+  - assert (Ex : f x = g x) by (apply Hd; [left; reflexivity | exact Nx]).
+    destruct Hq as [<-|Hq]; [exact Ex|].
+    rewrite Ex in E. apply app_inv_head in E.
+    apply IH; [exact ND' | intros; apply Hd; [right; assumption | assumption] | exact E | exact Hq].
+Qed.
 
 (* ------------------------------------------------------------------ injectivity, guarded *)
 Section Injective.
@@ -25,11 +336,33 @@ Section Injective.
     encode_def a = encode_def b /\
     (no_inputs a = no_inputs b) /\
     (no_inputs a = false -> encode_files fa a = encode_files fb b).
-  Proof. Admitted.
+  Proof.
+    unfold change_key. destruct (no_inputs a) eqn:Na, (no_inputs b) eqn:Nb; intro E.
+    - apply H_inj in E. split; [exact E|]. split; [reflexivity | discriminate].
+    - exfalso. apply (H_hex (encode_def a)). rewrite E.
+      apply in_or_app; right; left; reflexivity.
+    - exfalso. apply (H_hex (encode_def b)). rewrite <- E.
+      apply in_or_app; right; left; reflexivity.
+    - apply first_split_eq in E; try apply H_hex. destruct E as [E1 E2].
+      apply H_inj in E1. apply H_inj in E2. split; [exact E1|]. split; [reflexivity|].
+      intros _. exact E2.
+  Qed.
 
   Lemma concat_differ_one (l l' : list str) :
     length l = length l' -> concat l = concat l' -> differ_at_most_one l l' -> l = l'.
-  Proof. Admitted.
+  Proof.
+    revert l'; induction l as [|x l IH]; intros [|x' l'] Hlen Hc [k Hk];
+      try discriminate; try reflexivity.
+    cbn [concat] in Hc. cbn [length] in Hlen.
+    destruct k as [|k].
+    - assert (E : l = l').
+      { apply nth_error_ext. intro i. apply (Hk (S i)). discriminate. }
+      subst l'. apply app_inv_tail in Hc. congruence.
+    - assert (E : x = x').
+      { assert (H0 : 0 <> S k) by discriminate. apply Hk in H0. cbn [nth_error] in H0. congruence. }
+      subst x'. apply app_inv_head in Hc. f_equal.
+      apply IH; [lia | exact Hc |]. exists k. intros i Hi. apply (Hk (S i)). lia.
+  Qed.
 
   (* a single changed component, with decodable elements, always changes the key; a single
      changed input file likewise *)
@@ -40,7 +373,49 @@ Section Injective.
     NoDup (ts_ins a) ->
     (Permutation (ts_ins a) (ts_ins b) -> files_differ_at_most_one fa fb (ts_ins a)) ->
     state_equiv fa a fb b.
-  Proof. Admitted.
+  Proof.
+    intros Wa Wb K D ND F.
+    destruct (key_streams _ _ _ _ K) as (Ed & Eni & Ef).
+    assert (C : comps a = comps b).
+    { apply concat_differ_one; [reflexivity | exact Ed | exact D]. }
+    assert (C1 : print_label (ts_label a) = print_label (ts_label b))
+      by exact (f_equal (fun l => nth 0 l []) C).
+    unfold comps in C. injection C as _ C2 C3 C4 C5 C6 C7.
+    unfold wf_state in Wa, Wb. rewrite !andb_true_iff in Wa, Wb.
+    destruct Wa as (((((Wa1 & Wa2) & Wa3) & Wa4) & Wa5) & Wa6).
+    destruct Wb as (((((Wb1 & Wb2) & Wb3) & Wb4) & Wb5) & Wb6).
+    apply negb_true_iff, mem_ch_false in Wa1. apply negb_true_iff, mem_ch_false in Wb1.
+    assert (P3 : Permutation (ts_ins a) (ts_ins b)) by (apply join_sort_inj; assumption).
+    split; [apply print_label_inj; assumption|].
+    split; [exact C2|].
+    split; [exact P3|].
+    split; [apply join_sort_inj; assumption|].
+    split; [apply join_sort_inj; assumption|].
+    split.
+    { apply perm_map_kv_inv; [assumption | assumption |].
+      apply join_sort_inj; [apply forallb_map_kv; assumption | apply forallb_map_kv; assumption | exact C6]. }
+    split; [apply plat_str_inj; assumption|].
+    intros q Hq.
+    destruct (no_inputs a) eqn:Na.
+    { unfold no_inputs in Na. destruct (ts_ins a); [destruct Hq | discriminate]. }
+    specialize (Ef eq_refl). destruct (F P3) as (p & Fd & Fp).
+    unfold encode_files, file_parts in Ef.
+    rewrite <- (sort_strs_canonical _ _ P3) in Ef.
+    assert (FB : forall r, In r (sort_strs (ts_ins a)) -> file_bytes fa r = file_bytes fb r).
+    { apply (concat_map_one_diff _ _ p).
+      - eapply Permutation_NoDup; [apply Permutation_sym, sort_strs_perm | exact ND].
+      - intros r Hr Nr. unfold file_bytes. rewrite (Fd r); [reflexivity | | exact Nr].
+        apply (Permutation_in _ (sort_strs_perm _)); exact Hr.
+      - exact Ef. }
+    destruct (list_eq_dec ascii_dec q p) as [->|Nq]; [|apply Fd; assumption].
+    assert (Hb : file_bytes fa p = file_bytes fb p).
+    { apply FB. apply (Permutation_in _ (Permutation_sym (sort_strs_perm _))); exact Hq. }
+    unfold file_bytes in Hb. destruct (fa p) as [ca|], (fb p) as [cb|].
+    - congruence.
+    - destruct Fp as [_ Fp]. specialize (Fp eq_refl). discriminate.
+    - destruct Fp as [Fp _]. specialize (Fp eq_refl). discriminate.
+    - reflexivity.
+  Qed.
 End Injective.
 
 (* ------------------------------------------------------------------ refutations: collisions that hold
@@ -58,25 +433,42 @@ Definition linux : option str := Some ["l"; "x"]%char.
 Theorem collision_label_command :
   collides nofs (mkT (mkLabel (s1 "p") (s1 "a")) ["b"; "c"]%char [] [] [] [] linux)
            nofs (mkT (mkLabel (s1 "p") ["a"; "b"]%char) (s1 "c") [] [] [] [] linux).
-Proof. Admitted.
+Proof.
+  split.
+  - intros (E1 & _). cbv in E1. discriminate E1.
+  - intro H. vm_compute. reflexivity.
+Qed.
 
 (* list element containing the separator *)
 Theorem collision_separator_in_element :
   collides nofs (mkT La [] [] [["a"; ","; "b"]%char] [] [] linux)
            nofs (mkT La [] [] [s1 "a"; s1 "b"] [] [] linux).
-Proof. Admitted.
+Proof.
+  split.
+  - intros (_ & _ & _ & P & _). apply Permutation_length in P. discriminate P.
+  - intro H. vm_compute. reflexivity.
+Qed.
 
 (* fingerprint key/value shift around '=' *)
 Theorem collision_fingerprint_shift :
   collides nofs (mkT La [] [] [] [] [(s1 "a", ["b"; "="; "c"]%char)] linux)
            nofs (mkT La [] [] [] [] [(["a"; "="; "b"]%char, s1 "c")] linux).
-Proof. Admitted.
+Proof.
+  split.
+  - intros (_ & _ & _ & _ & _ & P & _). cbn [ts_fp] in P.
+    apply Permutation_length_1 in P. cbv in P. discriminate P.
+  - intro H. vm_compute. reflexivity.
+Qed.
 
 (* outputs | dependency hashes boundary *)
 Theorem collision_outputs_deps :
   collides nofs (mkT La [] [] [s1 "x"] [] [] linux)
            nofs (mkT La [] [] [] [s1 "x"] [] linux).
-Proof. Admitted.
+Proof.
+  split.
+  - intros (_ & _ & _ & P & _). apply Permutation_length in P. discriminate P.
+  - intro H. vm_compute. reflexivity.
+Qed.
 
 (* end of one input file / start of the next *)
 Definition fs_xy_z : str -> option str :=
@@ -86,34 +478,82 @@ Definition fs_x_yz : str -> option str :=
 Theorem collision_file_boundary :
   collides fs_xy_z (mkT La [] [s1 "a"; s1 "b"] [] [] [] linux)
            fs_x_yz (mkT La [] [s1 "a"; s1 "b"] [] [] [] linux).
-Proof. Admitted.
+Proof.
+  split.
+  - intros (_ & _ & _ & _ & _ & _ & _ & F).
+    specialize (F (s1 "a") (or_introl eq_refl)). vm_compute in F. discriminate F.
+  - intro H. vm_compute. reflexivity.
+Qed.
 
 (* absent vs empty literal input *)
 Definition fs_a_empty : str -> option str := fun p => if str_eqb p (s1 "a") then Some [] else None.
 Theorem collision_absent_vs_empty :
   collides nofs (mkT La [] [s1 "a"] [] [] [] linux)
            fs_a_empty (mkT La [] [s1 "a"] [] [] [] linux).
-Proof. Admitted.
+Proof.
+  split.
+  - intros (_ & _ & _ & _ & _ & _ & _ & F).
+    specialize (F (s1 "a") (or_introl eq_refl)). vm_compute in F. discriminate F.
+  - intro H. vm_compute. reflexivity.
+Qed.
 
 (* an alias in-edge leaves "" in the dependency-hash list: indistinguishable from no dependency *)
 Theorem collision_alias_dep_empty :
   collides nofs (mkT La [] [] [] [[]] [] linux)
            nofs (mkT La [] [] [] [] [] linux).
-Proof. Admitted.
+Proof.
+  split.
+  - intros (_ & _ & _ & _ & P & _). apply Permutation_length in P. discriminate P.
+  - intro H. vm_compute. reflexivity.
+Qed.
 
 (* non-vacuity of the guarded theorem: a well-formed pair that differs in one component *)
 Example single_change_nonvacuous :
   let a := mkT La (s1 "c") [s1 "i"] [s1 "o"] [s1 "d"] [(s1 "k", s1 "v")] linux in
   let b := mkT La (s1 "d") [s1 "i"] [s1 "o"] [s1 "d"] [(s1 "k", s1 "v")] linux in
   wf_state a = true /\ wf_state b = true /\ differ_at_most_one (comps a) (comps b).
-Proof. Admitted.
+Proof.
+  intros a b. split; [vm_compute; reflexivity|]. split; [vm_compute; reflexivity|].
+  exists 1. intros [|[|i]] Hi.
+  - reflexivity.
+  - contradiction.
+  - reflexivity.
+Qed.
 
 (* H := identity-with-hex is not needed: the hypotheses are satisfiable by an injective,
    '_'-free encoder, e.g. doubling every byte into two hex digits *)
 Definition hexdigit (n : nat) : ascii := ascii_of_nat (if n <? 10 then 48 + n else 87 + n).
 Definition hex_enc (s : str) : str :=
   flat_map (fun c => [hexdigit (nat_of_ascii c / 16); hexdigit (nat_of_ascii c mod 16)]) s.
+
+Definition hexval (c : ascii) : nat :=
+  let n := nat_of_ascii c in if n <? 58 then n - 48 else n - 87.
+Definition unhex2 (h l : ascii) : ascii := ascii_of_nat (hexval h * 16 + hexval l).
+
+Lemma unhex2_hex c : unhex2 (hexdigit (nat_of_ascii c / 16)) (hexdigit (nat_of_ascii c mod 16)) = c.
+Proof. destruct c as [[] [] [] [] [] [] [] []]; vm_compute; reflexivity. Qed.
+
+Lemma hexdigit_no_us c :
+  hexdigit (nat_of_ascii c / 16) <> ch_us /\ hexdigit (nat_of_ascii c mod 16) <> ch_us.
+Proof. destruct c as [[] [] [] [] [] [] [] []]; vm_compute; split; discriminate. Qed.
+
+Lemma hex_enc_cons c s :
+  hex_enc (c :: s) = hexdigit (nat_of_ascii c / 16) :: hexdigit (nat_of_ascii c mod 16) :: hex_enc s.
+Proof. reflexivity. Qed.
+
 Lemma hex_enc_inj x y : hex_enc x = hex_enc y -> x = y.
-Proof. Admitted.
+Proof.
+  revert y; induction x as [|c x IH]; intros [|d y] E.
+  - reflexivity.
+  - rewrite hex_enc_cons in E. discriminate E.
+  - rewrite hex_enc_cons in E. discriminate E.
+  - rewrite !hex_enc_cons in E. injection E as E1 E2 E3.
+    pose proof (unhex2_hex c) as Hc. pose proof (unhex2_hex d) as Hd.
+    rewrite E1, E2 in Hc. f_equal; [congruence | apply IH; exact E3].
+Qed.
 Lemma hex_enc_no_us x : ~ In ch_us (hex_enc x).
-Proof. Admitted.
+Proof.
+  induction x as [|c x IH]; [intros []|].
+  rewrite hex_enc_cons. destruct (hexdigit_no_us c) as [N1 N2].
+  intros [Hi|[Hi|Hi]]; [apply N1; exact Hi | apply N2; exact Hi | apply IH; exact Hi].
+Qed.
